@@ -22,9 +22,11 @@ ran["make check with the change"] = o.strip().replace("\n", " ")
 demo_with = demo_without = None
 if os.path.exists(os.path.join(out, "demo.c")):
     shutil.copy(os.path.join(out, "demo.c"), dst)
+    import re as _re
+    wraps = " ".join(sorted(set(_re.findall(r"-Wl,--wrap=[A-Za-z0-9_]+", open(os.path.join(out, "demo.c"), errors="replace").read()))))
     for name, root in (("with", wt), ("without", "/repo")):
         exe = "/var/tmp/seed_demo_%s_%s" % (sid, name)
-        rc, o = sh("gcc -w -I%s/libyara/include -I%s/libyara %s/demo.c %s/.libs/libyara.a -lcrypto -lm -lpthread -o %s && %s" % (root, root, out, root, exe, exe), cwd=out)
+        rc, o = sh("gcc -w -I%s/libyara/include -I%s/libyara %s/demo.c %s/.libs/libyara.a -lcrypto -lm -lpthread %s -o %s && %s" % (root, root, out, root, wraps, exe, exe), cwd=out)
         ran["demo.c %s the change (lib of %s)" % (name, root)] = "exit %d: %s" % (rc, o.strip()[-300:])
         if name == "with":
             demo_with = rc
@@ -35,7 +37,7 @@ if os.path.exists(os.path.join(out, "demo.c")):
 elif os.path.exists(os.path.join(out, "demo.sh")):
     shutil.copy(os.path.join(out, "demo.sh"), dst)
     for name, root in (("with", wt), ("without", "/repo")):
-        rc, o = sh("WT=%s sh %s/demo.sh" % (root, out), cwd=out)
+        rc, o = sh("chmod +x %s/demo.sh; WT=%s %s/demo.sh" % (out, root, out), cwd=out)
         ran["demo.sh %s the change (WT=%s)" % (name, root)] = "exit %d: %s" % (rc, o.strip()[-300:])
         if name == "with":
             demo_with = rc
